@@ -494,7 +494,39 @@ class _Inliner:
             if not changed:
                 break
         if any_change:
+            self._reduce_local_lambdas(fn)
             self._drop_dead_lambdas(fn)
+
+    @staticmethod
+    def _reduce_local_lambdas(fn):
+        """f = lambda x: E  ...  f(a)   ->   E[x:=a]   for a lambda bound once at the top level of the function whose
+        every other use is a call with simple positional arguments (a lambda reads its free variables when it is
+        called, so the substituted call site evaluates exactly what the call did)."""
+        stores = {}
+        for n in ast.walk(fn):
+            if isinstance(n, ast.Name) and isinstance(n.ctx, (ast.Store, ast.Del)):
+                stores[n.id] = stores.get(n.id, 0) + 1
+        for k, s in enumerate(list(fn.body)):
+            if not (isinstance(s, ast.Assign) and len(s.targets) == 1 and isinstance(s.targets[0], ast.Name)
+                    and isinstance(s.value, ast.Lambda) and stores.get(s.targets[0].id) == 1):
+                continue
+            name, lam = s.targets[0].id, s.value
+            a = lam.args
+            if a.vararg or a.kwarg or a.kwonlyargs or a.defaults:
+                continue
+            nparams = len(a.posonlyargs + a.args)
+            loads = [n for t in fn.body if t is not s for n in ast.walk(t) if isinstance(n, ast.Name) and n.id == name and isinstance(n.ctx, ast.Load)]
+            calls = [n for t in fn.body if t is not s for n in ast.walk(t) if isinstance(n, ast.Call) and isinstance(n.func, ast.Name) and n.func.id == name]
+            if not loads or len(loads) != len(calls):
+                continue
+            if not all(len(c.args) == nparams and not c.keywords and all(_simple(x) for x in c.args) for c in calls):
+                continue
+            if any(isinstance(n, ast.Name) and n.id == name for n in ast.walk(lam.body)):
+                continue
+            sub = _Subst({}, {name: lam})
+            for j, t in enumerate(fn.body):
+                if t is not s:
+                    fn.body[j] = sub.visit(t)
 
     @staticmethod
     def _drop_dead_lambdas(fn):
